@@ -191,6 +191,29 @@ def _worker(arg):
                     if not ok and len(res["fails"]) < 4:
                         res["fails"].append({"options": [bal, dw], "form": form, "window": [i0, i1, j0, j1],
                                              "got": np.asarray(got.toarray() if form == "sparse" else got).tolist() if form != "pixels" else got.to_dict("list")})
+            # pixel output with join=True: same balanced values, ids replaced by the bins' own coordinates (oracle only)
+            if wq is not None:
+                for (i0, i1, j0, j1) in wins[:: max(1, len(wins) // 10)]:
+                    try:
+                        kwj = dict(balance=bal, as_pixels=True, join=True, chunksize=case["chunk"])
+                        if dw is not None:
+                            kwj["divisive_weights"] = dw
+                        gj = clr.matrix(**kwj)[i0:i1, j0:j1]
+                        exp = [t for t in stored if i0 <= t[1] < i1 and j0 <= t[2] < j1]
+                        okj = len(gj) == len(exp) and "balanced" in gj.columns
+                        for k, t in enumerate(exp):
+                            if not okj:
+                                break
+                            w1, w2 = wq[t[1]], wq[t[2]]
+                            exact = None if (w1 is None or w2 is None) else w1 * w2 * t[3]
+                            okj = (close(float(gj["balanced"].iloc[k]), exact) and int(gj["start1"].iloc[k]) == int(bins["start"][t[1]])
+                                   and int(gj["end2"].iloc[k]) == int(bins["end"][t[2]]) and str(gj["chrom2"].iloc[k]) == str(bins["chrom"][t[2]]))
+                        res["nq"] += 1
+                        if not okj and len(res["fails"]) < 4:
+                            res["fails"].append({"options": [bal, dw], "form": "pixels+join", "window": [i0, i1, j0, j1], "got": gj.to_dict("list")})
+                    except Exception as e:
+                        if len(res["fails"]) < 4:
+                            res["fails"].append({"options": [bal, dw], "form": "pixels+join", "window": [i0, i1, j0, j1], "error": repr(e)})
             res["cks"].append(row)
     finally:
         fh.close()
